@@ -375,7 +375,7 @@ pub mod rayon_tempering {
         }
 
         fn parallel_tempering_step(&mut self) {
-            if self.graphs.is_empty() {
+            if self.graphs.len() <= 1 {
                 return;
             }
             if self.graph_ham_eq_a.is_none() || self.graph_ham_eq_b.is_none() {
